@@ -11,13 +11,13 @@ Open Scope Z_scope.
 (* the documented behaviour (dense branch samples from the list of all pairs): every 0 <= m <= L*R *)
 Theorem C15_m_edges_spec : forall L R m s G s',
   gg_m_edges_spec L R m s = GGOk (G, s') ->
-  gg_nedges G = m /\ io_kind G = KBipartite /\ io_n G = L /\ io_r G = R /\ 0 <= m <= L * R.
+  gg_nedges G = m /\ io_kind G = GioBipartite /\ io_n G = L /\ io_r G = R /\ 0 <= m <= L * R.
 Proof. exact m_edges_spec_exact. Qed.
 Print Assumptions C15_m_edges_spec.
 (* the code as it is: only the sparse branch delivers *)
 Theorem C15_m_edges_partial : forall L R m s G s',
   gg_m_edges_as_is L R m s = GGOk (G, s') -> m <= L * R / 3 ->
-  gg_nedges G = m /\ io_kind G = KBipartite /\ io_n G = L /\ io_r G = R /\ 0 <= m <= L * R.
+  gg_nedges G = m /\ io_kind G = GioBipartite /\ io_n G = L /\ io_r G = R /\ 0 <= m <= L * R.
 Proof. exact m_edges_sparse_exact. Qed.
 Print Assumptions C15_m_edges_partial.
 (* ... and the dense branch raises TypeError on a request the guard accepts (glrm 3 3 8): defect D10 *)
@@ -27,26 +27,26 @@ Proof. exact m_edges_as_is_refuted. Qed.
 Print Assumptions C15_m_edges_refuted.
 Example C15_m_edges_nonvacuous :
   gg_m_edges_spec 3 3 8 [0; 1; 2; 3; 4; 5; 6; 7] =
-    GGOk (mkIOG KBipartite [] 3 3 [(1,1); (1,2); (1,3); (2,1); (2,2); (2,3); (3,1); (3,2)], []) /\
-  gg_m_edges_as_is 3 3 3 [1; 1; 1; 1; 2; 2; 3; 1] = GGOk (mkIOG KBipartite [] 3 3 [(1,1); (2,2); (3,1)], []) /\
+    GGOk (mkIOG GioBipartite [] 3 3 [(1,1); (1,2); (1,3); (2,1); (2,2); (2,3); (3,1); (3,2)], []) /\
+  gg_m_edges_as_is 3 3 3 [1; 1; 1; 1; 2; 2; 3; 1] = GGOk (mkIOG GioBipartite [] 3 3 [(1,1); (2,2); (3,1)], []) /\
   gg_m_edges_as_is 3 3 3 [1; 1; 4; 1] = GGBadOracle.
 Proof. vm_compute. repeat split. Qed.
 
 (* ---- (2) glrd: every left vertex has degree min(r, d) ---- *)
 Theorem C15_left_regular : forall l r d s G s', gg_left_regular l r d s = GGOk (G, s') ->
-  io_kind G = KBipartite /\ io_n G = l /\ io_r G = r /\
+  io_kind G = GioBipartite /\ io_n G = l /\ io_r G = r /\
   forall u, 1 <= u <= l -> Z.of_nat (length (gio_succs G u)) = Z.min r d.
 Proof. exact left_regular_degree. Qed.
 Print Assumptions C15_left_regular.
 Example C15_left_regular_nonvacuous :
-  gg_left_regular 2 3 2 [0; 2; 1; 0] = GGOk (mkIOG KBipartite [] 2 3 [(1,1); (1,3); (2,1); (2,2)], []).
+  gg_left_regular 2 3 2 [0; 2; 1; 0] = GGOk (mkIOG GioBipartite [] 2 3 [(1,1); (1,3); (2,1); (2,2)], []).
 Proof. vm_compute. reflexivity. Qed.
 
 (* ---- (3) regular: degree d on the left and l*d/r on the right, whenever it returns ---- *)
 (* repaired variant (the free pair found by the exhaustive test is used): for every stream and every restart fuel *)
 Theorem C15_regular_spec : forall restarts l r d s G s',
   gg_random_regular_spec restarts l r d s = GGOk (G, s') ->
-  io_kind G = KBipartite /\
+  io_kind G = GioBipartite /\
   (forall u, 1 <= u <= l -> Z.of_nat (length (gio_succs G u)) = d) /\
   (forall v, 1 <= v <= r -> Z.of_nat (length (gio_preds G v)) = l * d / r) /\
   gg_nedges G = l * d.
@@ -55,7 +55,7 @@ Print Assumptions C15_regular_spec.
 (* the code as it is: regular exactly when no position was skipped, i.e. when the graph has l*d edges *)
 Theorem C15_regular_partial : forall restarts l r d s G s',
   gg_random_regular_as_is restarts l r d s = GGOk (G, s') -> gg_nedges G = l * d ->
-  io_kind G = KBipartite /\
+  io_kind G = GioBipartite /\
   (forall u, 1 <= u <= l -> Z.of_nat (length (gio_succs G u)) = d) /\
   (forall v, 1 <= v <= r -> Z.of_nat (length (gio_preds G v)) = l * d / r) /\
   gg_nedges G = l * d.
@@ -68,25 +68,25 @@ Theorem C15_regular_refuted : exists restarts l r d s G s',
 Proof. exact random_regular_as_is_refuted. Qed.
 Print Assumptions C15_regular_refuted.
 Example C15_regular_nonvacuous :
-  gg_random_regular_spec 1 2 2 2 [0; 0; 1; 1; 2; 3; 3; 3] = GGOk (mkIOG KBipartite [] 2 2 [(1,1); (1,2); (2,1); (2,2)], []) /\
-  gg_random_regular_as_is 1 2 2 2 [0; 0; 1; 1; 2; 3; 3; 3] = GGOk (mkIOG KBipartite [] 2 2 [(1,1); (1,2); (2,1); (2,2)], []) /\
-  gg_random_regular_as_is 1 2 2 2 ([0; 0] ++ concat (repeat [2; 2] 12) ++ [2; 3; 3; 3]) = GGOk (mkIOG KBipartite [] 2 2 [(1,1); (1,2); (2,1)], []) /\
-  gg_random_regular_spec 1 2 2 2 ([0; 0] ++ concat (repeat [2; 2] 12) ++ [2; 3; 3; 3]) = GGOk (mkIOG KBipartite [] 2 2 [(1,1); (1,2); (2,1); (2,2)], []) /\
+  gg_random_regular_spec 1 2 2 2 [0; 0; 1; 1; 2; 3; 3; 3] = GGOk (mkIOG GioBipartite [] 2 2 [(1,1); (1,2); (2,1); (2,2)], []) /\
+  gg_random_regular_as_is 1 2 2 2 [0; 0; 1; 1; 2; 3; 3; 3] = GGOk (mkIOG GioBipartite [] 2 2 [(1,1); (1,2); (2,1); (2,2)], []) /\
+  gg_random_regular_as_is 1 2 2 2 ([0; 0] ++ concat (repeat [2; 2] 12) ++ [2; 3; 3; 3]) = GGOk (mkIOG GioBipartite [] 2 2 [(1,1); (1,2); (2,1)], []) /\
+  gg_random_regular_spec 1 2 2 2 ([0; 0] ++ concat (repeat [2; 2] 12) ++ [2; 3; 3; 3]) = GGOk (mkIOG GioBipartite [] 2 2 [(1,1); (1,2); (2,1); (2,2)], []) /\
   gg_random_regular_spec 5 3 0 2 [] = GGZeroDiv /\ gg_random_regular_spec 5 3 2 1 [] = GGRaise EValueError.
 Proof. vm_compute. repeat split. Qed.
 
 (* ---- (4) path, tree, pyramid: closed-form vertex and edge counts, acyclic ---- *)
 Theorem C15_dag_path : forall len, 0 <= len -> exists G, gg_dag_path len = GGOk G /\
-  io_kind G = KDirected /\ io_n G = len + 1 /\ gg_nedges G = len /\ gio_is_dag G = true /\
+  io_kind G = GioDirected /\ io_n G = len + 1 /\ gg_nedges G = len /\ gio_is_dag G = true /\
   (forall u v, In (u, v) (io_edges G) <-> 1 <= u <= len /\ v = u + 1).
 Proof. exact dag_path_shape. Qed.
 Print Assumptions C15_dag_path.
 Theorem C15_dag_tree : forall h, 0 <= h -> exists G, gg_dag_tree h = GGOk G /\
-  io_kind G = KDirected /\ io_n G = 2 ^ (h + 1) - 1 /\ gg_nedges G = 2 ^ (h + 1) - 2 /\ gio_is_dag G = true.
+  io_kind G = GioDirected /\ io_n G = 2 ^ (h + 1) - 1 /\ gg_nedges G = 2 ^ (h + 1) - 2 /\ gio_is_dag G = true.
 Proof. exact dag_tree_shape. Qed.
 Print Assumptions C15_dag_tree.
 Theorem C15_dag_pyramid : forall h, 0 <= h -> exists G, gg_dag_pyramid h = GGOk G /\
-  io_kind G = KDirected /\ io_n G = (h + 1) * (h + 2) / 2 /\ gg_nedges G = h * (h + 1) /\ gio_is_dag G = true.
+  io_kind G = GioDirected /\ io_n G = (h + 1) * (h + 2) / 2 /\ gg_nedges G = h * (h + 1) /\ gio_is_dag G = true.
 Proof. exact dag_pyramid_shape. Qed.
 Print Assumptions C15_dag_pyramid.
 Theorem C15_dag_negative_refused : forall h, h < 0 ->
@@ -94,59 +94,59 @@ Theorem C15_dag_negative_refused : forall h, h < 0 ->
 Proof. exact dag_negative_refused. Qed.
 Print Assumptions C15_dag_negative_refused.
 Example C15_dag_nonvacuous :
-  gg_dag_pyramid 2 = GGOk (mkIOG KDirected [] 6 0 [(1,4); (2,4); (2,5); (3,5); (4,6); (5,6)]) /\
-  gg_dag_tree 2 = GGOk (mkIOG KDirected [] 7 0 [(1,5); (2,5); (3,6); (4,6); (5,7); (6,7)]) /\
-  gg_dag_path 3 = GGOk (mkIOG KDirected [] 4 0 [(1,2); (2,3); (3,4)]).
+  gg_dag_pyramid 2 = GGOk (mkIOG GioDirected [] 6 0 [(1,4); (2,4); (2,5); (3,5); (4,6); (5,6)]) /\
+  gg_dag_tree 2 = GGOk (mkIOG GioDirected [] 7 0 [(1,5); (2,5); (3,6); (4,6); (5,7); (6,7)]) /\
+  gg_dag_path 3 = GGOk (mkIOG GioDirected [] 4 0 [(1,2); (2,3); (3,4)]).
 Proof. vm_compute. repeat split. Qed.
 
 (* ---- (5) plantclique / plantbiclique: the sampled set is a clique afterwards, nothing is removed, nothing else is added ---- *)
-Theorem C15_plantclique : forall G k s G' s', io_kind G = KSimple -> gg_plantclique G k s = GGOk (G', s') ->
+Theorem C15_plantclique : forall G k s G' s', io_kind G = GioSimple -> gg_plantclique G k s = GGOk (G', s') ->
   exists c, length c = Z.to_nat k /\ NoDup c /\ 0 <= k <= io_n G /\ (forall v, In v c -> 1 <= v <= io_n G) /\
     (forall v w, In v c -> In w c -> v <> w -> gio_has_edge G' v w = true) /\
     (forall e, In e (io_edges G) -> In e (io_edges G')) /\
     (forall e, In e (io_edges G') -> In e (io_edges G) \/ (In (fst e) c /\ In (snd e) c)) /\
-    io_kind G' = KSimple /\ io_n G' = io_n G.
+    io_kind G' = GioSimple /\ io_n G' = io_n G.
 Proof. exact plantclique_clique. Qed.
 Print Assumptions C15_plantclique.
-Theorem C15_plantbiclique : forall G a b s G' s', io_kind G = KBipartite -> gg_plantbiclique G a b s = GGOk (G', s') ->
+Theorem C15_plantbiclique : forall G a b s G' s', io_kind G = GioBipartite -> gg_plantbiclique G a b s = GGOk (G', s') ->
   exists lf rt, length lf = Z.to_nat a /\ length rt = Z.to_nat b /\ NoDup lf /\ NoDup rt /\
     (forall u, In u lf -> 1 <= u <= io_n G) /\ (forall v, In v rt -> 1 <= v <= io_r G) /\
     (forall u v, In u lf -> In v rt -> gio_has_edge G' u v = true) /\
     (forall e, In e (io_edges G) -> In e (io_edges G')) /\
     (forall e, In e (io_edges G') -> In e (io_edges G) \/ (In (fst e) lf /\ In (snd e) rt)) /\
-    io_kind G' = KBipartite /\ io_n G' = io_n G /\ io_r G' = io_r G.
+    io_kind G' = GioBipartite /\ io_n G' = io_n G /\ io_r G' = io_r G.
 Proof. exact plantbiclique_biclique. Qed.
 Print Assumptions C15_plantbiclique.
 Example C15_plant_nonvacuous :
-  gg_plantclique (mkIOG KSimple [] 5 0 [(1,2)]) 3 [4; 0; 2] = GGOk (mkIOG KSimple [] 5 0 [(1,2); (1,3); (1,5); (3,5)], []) /\
-  gg_plantclique (mkIOG KSimple [] 5 0 [(1,2)]) 6 [] = GGRaise EValueError /\
-  gg_plantclique (mkIOG KSimple [] 5 0 [(1,2)]) 2 [4; 4] = GGBadOracle /\
-  gg_plantbiclique (mkIOG KBipartite [] 2 3 []) 1 2 [1; 2; 0] = GGOk (mkIOG KBipartite [] 2 3 [(2,1); (2,3)], []).
+  gg_plantclique (mkIOG GioSimple [] 5 0 [(1,2)]) 3 [4; 0; 2] = GGOk (mkIOG GioSimple [] 5 0 [(1,2); (1,3); (1,5); (3,5)], []) /\
+  gg_plantclique (mkIOG GioSimple [] 5 0 [(1,2)]) 6 [] = GGRaise EValueError /\
+  gg_plantclique (mkIOG GioSimple [] 5 0 [(1,2)]) 2 [4; 4] = GGBadOracle /\
+  gg_plantbiclique (mkIOG GioBipartite [] 2 3 []) 1 2 [1; 2; 0] = GGOk (mkIOG GioBipartite [] 2 3 [(2,1); (2,3)], []).
 Proof. vm_compute. repeat split. Qed.
 
 (* ---- (6) addedges: exactly m more edges, the old ones kept, orders unchanged (simple and bipartite graphs) ---- *)
-Theorem C15_addedges : forall G m s G' s', io_kind G <> KDirected -> gg_add_missing G m s = GGOk (G', s') ->
+Theorem C15_addedges : forall G m s G' s', io_kind G <> GioDirected -> gg_add_missing G m s = GGOk (G', s') ->
   gg_nedges G' = gg_nedges G + m /\ 0 <= m /\
   io_kind G' = io_kind G /\ io_n G' = io_n G /\ io_r G' = io_r G /\ (forall e, In e (io_edges G) -> In e (io_edges G')).
 Proof. exact add_missing_exact. Qed.
 Print Assumptions C15_addedges.
 Example C15_addedges_nonvacuous :
   (* ten collisions per requested edge, then the fallback sample of the available edges *)
-  gg_add_missing (mkIOG KSimple [] 4 0 [(1,2)]) 2 ([0;1;0;1;0;1;0;1;0;1;0;1;0;1;0;1;0;1;0;1;0;1;0;1;0;1;0;1;0;1;0;1;0;1;0;1;0;1;0;1] ++ [4; 0])
-    = GGOk (mkIOG KSimple [] 4 0 [(1,2); (1,3); (3,4)], []) /\
-  gg_add_missing (mkIOG KSimple [] 3 0 [(1,2); (1,3); (2,3)]) 1 [] = GGRaise EValueError.
+  gg_add_missing (mkIOG GioSimple [] 4 0 [(1,2)]) 2 ([0;1;0;1;0;1;0;1;0;1;0;1;0;1;0;1;0;1;0;1;0;1;0;1;0;1;0;1;0;1;0;1;0;1;0;1;0;1;0;1] ++ [4; 0])
+    = GGOk (mkIOG GioSimple [] 4 0 [(1,2); (1,3); (3,4)], []) /\
+  gg_add_missing (mkIOG GioSimple [] 3 0 [(1,2); (1,3); (2,3)]) 1 [] = GGRaise EValueError.
 Proof. vm_compute. repeat split. Qed.
 
 (* ---- (7) splitedges: exactly k more vertices and k more edges, the graph stays a well-formed simple graph ---- *)
 Theorem C15_splitedges : forall G k s G' s', gio_wf G -> gg_split_edges G k s = GGOk (G', s') ->
-  io_kind G = KSimple /\ io_kind G' = KSimple /\ 0 <= k /\
+  io_kind G = GioSimple /\ io_kind G' = GioSimple /\ 0 <= k /\
   io_n G' = io_n G + k /\ gg_nedges G' = gg_nedges G + k /\ gio_wf G'.
 Proof. exact split_exact. Qed.
 Print Assumptions C15_splitedges.
 Example C15_splitedges_nonvacuous :
-  gg_split_edges (mkIOG KSimple [] 3 0 [(1,2); (1,3); (2,3)]) 2 [2; 0] = GGOk (mkIOG KSimple [] 5 0 [(1,3); (1,5); (2,4); (2,5); (3,4)], []) /\
-  gg_split_edges (mkIOG KSimple [] 3 0 [(1,2)]) 2 [] = GGRaise EValueError /\
-  gg_split_edges (mkIOG KBipartite [] 2 2 [(1,2)]) 1 [0] = GGRaise ETypeError.
+  gg_split_edges (mkIOG GioSimple [] 3 0 [(1,2); (1,3); (2,3)]) 2 [2; 0] = GGOk (mkIOG GioSimple [] 5 0 [(1,3); (1,5); (2,4); (2,5); (3,4)], []) /\
+  gg_split_edges (mkIOG GioSimple [] 3 0 [(1,2)]) 2 [] = GGRaise EValueError /\
+  gg_split_edges (mkIOG GioBipartite [] 2 2 [(1,2)]) 1 [0] = GGRaise ETypeError.
 Proof. vm_compute. repeat split. Qed.
 
 (* ---- (8) the argument guards of graph_build.py imply the precondition of what is called next ---- *)
@@ -214,7 +214,7 @@ Proof. vm_compute. repeat split. Qed.
 
 (* ---- (9) shift: the named graph; the caller's pattern ---- *)
 Theorem C15_shift : forall b N M pat G p', gg_shift b N M pat = GGOk (G, p') ->
-  io_kind G = KBipartite /\ io_n G = N /\ io_r G = M /\ 1 <= N /\ 1 <= M /\
+  io_kind G = GioBipartite /\ io_n G = N /\ io_r G = M /\ 1 <= N /\ 1 <= M /\
   (forall u v, gio_has_edge G u v = true <-> 1 <= u <= N /\ exists o, In o pat /\ v = 1 + (u - 1 + o) mod M) /\
   p' = (if b then gio_sort Z.ltb pat else pat).
 Proof. exact shift_named. Qed.
@@ -232,16 +232,16 @@ Print Assumptions C15_shift_keeps_pattern_refuted.
 
 (* ---- complete and empty graphs are the named graphs ---- *)
 Theorem C15_complete_bipartite : forall L R, 0 <= L -> 0 <= R -> exists G, gg_complete_bipartite L R = GGOk G /\
-  io_kind G = KBipartite /\ io_n G = L /\ io_r G = R /\ gg_nedges G = L * R /\
+  io_kind G = GioBipartite /\ io_n G = L /\ io_r G = R /\ gg_nedges G = L * R /\
   (forall u v, gio_has_edge G u v = true <-> 1 <= u <= L /\ 1 <= v <= R).
 Proof. exact complete_bipartite_shape. Qed.
 Print Assumptions C15_complete_bipartite.
 Theorem C15_complete_simple : forall n, 0 <= n -> exists G, gg_complete_simple n = GGOk G /\
-  io_kind G = KSimple /\ io_n G = n /\ 2 * gg_nedges G = n * (n - 1) /\
+  io_kind G = GioSimple /\ io_n G = n /\ 2 * gg_nedges G = n * (n - 1) /\
   (forall u v, gio_has_edge G u v = true <-> 1 <= u <= n /\ 1 <= v <= n /\ u <> v).
 Proof. exact complete_simple_shape. Qed.
 Print Assumptions C15_complete_simple.
 Theorem C15_empty_graphs : forall L R n, 0 <= L -> 0 <= R -> 0 <= n ->
-  gg_empty_bipartite L R = GGOk (mkIOG KBipartite [] L R []) /\ gg_empty_simple n = GGOk (mkIOG KSimple [] n 0 []).
+  gg_empty_bipartite L R = GGOk (mkIOG GioBipartite [] L R []) /\ gg_empty_simple n = GGOk (mkIOG GioSimple [] n 0 []).
 Proof. exact empty_shapes. Qed.
 Print Assumptions C15_empty_graphs.
